@@ -5,7 +5,7 @@ check('C14',
   'DESIGN.md 5 C14')
 check('C01',
   'bounded exhaustive enumeration (complete product of route tables x methods x paths) of the real router against a reference resolver',
-  'Every ordered table of up to 3 patterns (4 over a core pool) drawn from a 26-pattern pool that contains colliding inputs for every indexing shortcut of the router, with every method-set assignment, is registered on a real router and every one of 259 paths x 3-4 methods is resolved through Router.Match and ServeHTTP and compared with an independent reference resolver (back-tracking matcher + the documented tier rule). Nothing is sampled; the enumeration is complete within the stated alphabets.',
+  'Every ordered table of up to 3 patterns (4 over a core pool) drawn from a 27-pattern pool that contains colliding inputs for every indexing shortcut of the router, with every method-set assignment, is registered on a real router and every one of 259 paths x 3-4 methods is resolved through Router.Match and ServeHTTP and compared with an independent reference resolver (back-tracking matcher + the documented tier rule). Nothing is sampled; the enumeration is complete within the stated alphabets.',
   'Small-scope: <=4 routes, <=3 path segments over 6 segment strings. The reference matcher and resolver (mc/refmodel/route.go) are trusted; they share no code with rux and are sanity-tested against hand-computed cases.',
   'DESIGN.md 5 C01')
 check('C02',
@@ -15,12 +15,12 @@ check('C02',
   'DESIGN.md 5 C02')
 check('C06',
   'bounded exhaustive enumeration of (route table, option set, request) against a reference resolver',
-  'Every ordered table of up to 2 (thorough 3) routes from an 11-route pool x all 16 option subsets x 6 InterceptAll values x default/custom NotFound and NotAllowed handlers is built; all 10 methods x 8 paths are resolved twice through Match and ServeHTTP and compared with the documented resolution order (direct, HEAD->GET, fallback route, 405 with exact allowed set / Allow header / OPTIONS 200, 404).',
+  'Every ordered table of up to 2 (thorough 3) routes from an 13-route pool x all 16 option subsets x 6 InterceptAll values x default/custom NotFound and NotAllowed handlers is built; all 10 methods x 8 paths are resolved twice through Match and ServeHTTP and compared with the documented resolution order (direct, HEAD->GET, fallback route, 405 with exact allowed set / Allow header / OPTIONS 200, 404).',
   'Bounded tables and path alphabet; reference resolver trusted.',
   'DESIGN.md 5 C06')
 check('C07',
   'explicit-state model checking to fix-point over request histories (cache-state graph) with a non-caching twin as oracle',
-  'For 8 route tables x 8 option subsets x capacities 0..3 (thorough 0..4) the complete graph of reachable cache states of the real router is explored breadth-first (state = cache keys in recency order with the route and params each entry holds); in every state every request of an 12/15-request alphabet (hits, misses, evictions, HEAD->GET, 405 probes, fallback route, 404) is executed through Match and ServeHTTP and must observe exactly what the same router without caching observes. Fix-point reached: every state x every request.',
+  'For 9 route tables x 8 option subsets x capacities 0..3 (thorough 0..4) the complete graph of reachable cache states of the real router is explored breadth-first (state = cache keys in recency order with the route and params each entry holds); in every state every request of an 13/16-request alphabet (hits, misses, evictions, HEAD->GET, 405 probes, fallback route, 404) is executed through Match and ServeHTTP and must observe exactly what the same router without caching observes. Fix-point reached: every state x every request.',
   'The canonical state is the cache content only (tables/options are frozen after registration, contexts are reset - C10). Bounded request alphabet and tables.',
   'DESIGN.md 5 C07')
 check('C11',
@@ -45,7 +45,7 @@ check('C05',
   'DESIGN.md 5 C05')
 check('C08',
   'depth-bounded exhaustive search over writer operation sequences with enumerated environment answers (short write / error) against a writer specification',
-  'ALL operation sequences of length <=4 (thorough 5) over 14 operations x every split over middleware-before/main/middleware-after x every assignment of <=2 faulty answers to the underlying writes, and length 5 (6) with <=1 fault: the complete event log of a recording ResponseWriter+Flusher (WriteHeader calls with code and header snapshot, accepted bytes, flushes), the body and Length() must equal a 20-line specification.',
+  'ALL operation sequences of length <=4 (thorough 6) over 16 operations (incl. statuses 204 and 304 and a Stream) x splits over middleware-before/main/middleware-after, the OnError hook, a HandleContext re-dispatch, an io.ReaderFrom underlying writer x every assignment of <=2 faulty answers to the underlying writes, and length 5 (6) with <=1 fault: the complete event log of a recording ResponseWriter+Flusher (WriteHeader calls with code and header snapshot, accepted bytes, flushes), the body and Length() must equal a 20-line specification.',
   'Operation and status alphabets are fixed; the recording writer stands in for a real connection. Hijack is not exercised.',
   'DESIGN.md 5 C08')
 check('C09',
